@@ -389,6 +389,136 @@ def activate (cfg : Cfg) (s : Zchd) (osc : Nat) (outs : List ZchOut) (ctx : Path
   let (s, ev1) :=
     if !outs.isEmpty then
       let n : Int := s.charsToDelete + (if isPrio then s.priorActivationOutputCount else 0) - cpl
+      -- the re-used common prefix stays on screen and stays counted
+      ({ s with charsToDelete := displayLen (outs.take cpl), priorActivationOutputCount := displayLen outs },
+       bspcs n.toNat)
+    else
+      -- what a later follow-up has to erase: what earlier chords of the chain left, plus
+      -- everything typed during this hold
+      let ctd := s.charsToDelete + 1
+      ({ s with charsToDelete := ctd,
+                priorActivationOutputCount := (if isPrio then s.priorActivationOutputCount else 0) + ctd },
+       [OsEv.down osc])
+  let path := ctx ++ [s.inputKeys]
+  let s := { s with prioritized := if hasFollowups cfg.dict path then some path else none }
+  let evAltUp : List OsEv := if s.altgr && !outs.isEmpty then [.up KEY_RIGHTALT] else []
+  -- with a re-used prefix the first character of the output is already on screen: a held shift
+  -- must not capitalise what is typed now
+  let released0 : Bool := decide (cpl > 0) && !s.capsWord
+  let evSftUp : List OsEv :=
+    if released0 then
+      (if s.lsft then [.up KEY_LEFTSHIFT] else []) ++ (if s.rsft then [.up KEY_RIGHTSHIFT] else [])
+    else []
+  let toSend := outs.drop cpl
+  let evKeys := sendKeys s released0 toSend
+  let s := { s with charsToDelete := s.charsToDelete + displayLen toSend }
+  let (s, evSpace) :=
+    if wantsSmartSpace cfg outs then
+      let s := if cfg.smartSpace = .full then { s with smartSpaceState := .sent } else s
+      ({ s with priorActivationOutputCount := s.priorActivationOutputCount + 1,
+                charsToDelete := s.charsToDelete + 1 },
+       [OsEv.down KEY_SPACE, OsEv.up KEY_SPACE])
+    else (s, [])
+  let evSft : List OsEv :=
+    if !s.capsWord then
+      (if s.lsft then [.down KEY_LEFTSHIFT] else []) ++ (if s.rsft then [.down KEY_RIGHTSHIFT] else [])
+    else []
+  let evAltDown : List OsEv := if s.altgr && !outs.isEmpty then [.down KEY_RIGHTALT] else []
+  ({ s with lastPress := .isChord }, ev1 ++ evAltUp ++ evSftUp ++ evKeys ++ evSpace ++ evSft ++ evAltDown)
+
+/-- The smart-space part of `zch_press_key`: a punctuation key right after an activation that sent
+a smart space erases that space.  The space is part of characters-to-delete only while the chord
+that sent it is still (partly) held, and part of the prior output count kept for follow-ups. -/
+def punctStage (cfg : Cfg) (s : Zchd) (osc : Nat) : Zchd × List OsEv :=
+  if s.smartSpaceState = .sent && cfg.punctuation.contains (puncOf s osc) then
+    let s := if !s.inputKeys.isEmpty then { s with charsToDelete := s.charsToDelete - 1 } else s
+    let s := if s.prioritized.isSome then
+      { s with priorActivationOutputCount := s.priorActivationOutputCount - 1 } else s
+    (s, bspc)
+  else (s, [])
+
+/-- `zchd_activate_chord_deadline`, `zchd_state_change`, `zchd_press_key` in a row. -/
+def enterKey (cfg : Cfg) (s : Zchd) (osc : Nat) : Zchd :=
+  let s := s.activateChordDeadline cfg.ticksChordDeadline
+  let s := s.stateChange cfg
+  { s with inputKeys := sortedInsert osc s.inputKeys }
+
+/-- The outcome of the two lookups of `zch_press_key`. -/
+inductive Found
+  | prio (p : Path) (a : List ZchOut)   -- `HasValue` in the prioritised follow-up map of path `p`
+  | top (a : List ZchOut)               -- `HasValue` among the top-level chords
+  | subset
+  | neither
+  deriving Repr
+
+/-- The two lookups on a prioritised map (if any) and a key set. -/
+def findChordK (cfg : Cfg) (prioritized : Option Path) (keys : Key) : Found :=
+  let prio : Option (Path × List ZchOut) :=
+    match prioritized with
+    | some p =>
+      match lookupLevel cfg.dict p keys with
+      | .hasValue a => some (p, a)
+      | _ => none
+    | none => none
+  let subsetOfFollowup : Bool :=
+    match prioritized with
+    | some p =>
+      match lookupLevel cfg.dict p keys with
+      | .isSubset => true
+      | _ => false
+    | none => false
+  match prio with
+  | some (p, a) => .prio p a
+  | none =>
+    match lookupLevel cfg.dict [] keys with
+    | .hasValue a => .top a
+    | .isSubset => .subset
+    -- keys that are part of a possible follow-up chord must not disable zippychord only because
+    -- no top-level chord contains them
+    | .neither => if subsetOfFollowup then .subset else .neither
+
+/-- `activation = pchords.get(keys)`; `if !HasValue { activation = zch_chords.get(keys); if it was
+IsSubset and now Neither { activation = IsSubset } }`. -/
+def findChord (cfg : Cfg) (s : Zchd) : Found := findChordK cfg s.prioritized s.inputKeys
+
+/-- `ZchState::zch_press_key` -/
+def zchPressKey (cfg : Cfg) (s : Zchd) (osc : Nat) : Zchd × List OsEv :=
+  if ssmIsEmpty (levelSsm cfg.dict []) then (s, [.down osc])
+  else if osc = KEY_LEFTSHIFT then ({ s with lsft := true }, [.down osc])
+  else if osc = KEY_RIGHTSHIFT then ({ s with rsft := true }, [.down osc])
+  else if osc = KEY_RIGHTALT then ({ s with altgr := true }, [.down osc])
+  else if isZippyIgnored osc then (s, [.down osc])
+  else
+    let s1 := (punctStage cfg s osc).1
+    let ev0 := (punctStage cfg s osc).2
+    let s1 := { s1 with smartSpaceState := .inactive }
+    if s1.enabledState ≠ .enabled then (s1, ev0 ++ [.down osc])
+    else
+      let s2 := enterKey cfg s1 osc
+      match findChord cfg s2 with
+      | .prio p a => ((activate cfg s2 osc a p true).1, ev0 ++ (activate cfg s2 osc a p true).2)
+      | .top a => ((activate cfg s2 osc a [] false).1, ev0 ++ (activate cfg s2 osc a [] false).2)
+      | .subset =>
+        ({ s2 with lastPress := .notChord, charsToDelete := s2.charsToDelete + 1 }, ev0 ++ [.down osc])
+      | .neither => (s2.softReset, ev0 ++ [.down osc])
+
+/-! ### The pinned code (before the `fix:` commits), kept for the counterexample theorems only -/
+
+/-- PINNED (before fix-class-4/5/7-8): the `HasValue(a)` arm of `zch_press_key`.  `ctx` is the path of the map the chord was found in
+(`[]` = the top-level chords), `isPrio` whether that was the prioritised follow-up map. -/
+def activatePinned (cfg : Cfg) (s : Zchd) (osc : Nat) (outs : List ZchOut) (ctx : Path) (isPrio : Bool) :
+    Zchd × List OsEv :=
+  let cpl : Nat :=
+    if !isPrio && s.sameHoldActivationCount = 0 then 0
+    else match s.priorActivation with
+      | some prior => commonPrefixLen prior outs
+      | none => 0
+  let s := { s with priorActivation := some outs,
+                    sameHoldActivationCount := s.sameHoldActivationCount + 1,
+                    ticksUntilDisable := cfg.ticksChordDeadline }
+  let (s, ev1) :=
+    if !outs.isEmpty then
+      let n : Int := s.charsToDelete + (if isPrio then s.priorActivationOutputCount else 0) - cpl
       ({ s with charsToDelete := 0, priorActivationOutputCount := displayLen outs }, bspcs n.toNat)
     else
       ({ s with charsToDelete := s.charsToDelete + 1,
@@ -414,29 +544,15 @@ def activate (cfg : Cfg) (s : Zchd) (osc : Nat) (outs : List ZchOut) (ctx : Path
   let evAltDown : List OsEv := if s.altgr && !outs.isEmpty then [.down KEY_RIGHTALT] else []
   ({ s with lastPress := .isChord }, ev1 ++ evAltUp ++ evKeys ++ evSpace ++ evSft ++ evAltDown)
 
-/-- The smart-space part of `zch_press_key`: a punctuation key right after an activation that sent
+/-- PINNED (before fix-class-6): the smart-space part of `zch_press_key`: a punctuation key right after an activation that sent
 a smart space erases that space (and the erase counter is decremented). -/
-def punctStage (cfg : Cfg) (s : Zchd) (osc : Nat) : Zchd × List OsEv :=
+def punctStagePinned (cfg : Cfg) (s : Zchd) (osc : Nat) : Zchd × List OsEv :=
   if s.smartSpaceState = .sent && cfg.punctuation.contains (puncOf s osc) then
     ({ s with charsToDelete := s.charsToDelete - 1 }, bspc)
   else (s, [])
 
-/-- `zchd_activate_chord_deadline`, `zchd_state_change`, `zchd_press_key` in a row. -/
-def enterKey (cfg : Cfg) (s : Zchd) (osc : Nat) : Zchd :=
-  let s := s.activateChordDeadline cfg.ticksChordDeadline
-  let s := s.stateChange cfg
-  { s with inputKeys := sortedInsert osc s.inputKeys }
-
-/-- The outcome of the two lookups of `zch_press_key`. -/
-inductive Found
-  | prio (p : Path) (a : List ZchOut)   -- `HasValue` in the prioritised follow-up map of path `p`
-  | top (a : List ZchOut)               -- `HasValue` among the top-level chords
-  | subset
-  | neither
-  deriving Repr
-
-/-- `activation = pchords.get(keys)`; `if !HasValue { activation = zch_chords.get(keys) }`. -/
-def findChord (cfg : Cfg) (s : Zchd) : Found :=
+/-- PINNED (before fix-class-1): `activation = pchords.get(keys)`; `if !HasValue { activation = zch_chords.get(keys) }`. -/
+def findChordPinned (cfg : Cfg) (s : Zchd) : Found :=
   let prio : Option (Path × List ZchOut) :=
     match s.prioritized with
     | some p =>
@@ -452,23 +568,23 @@ def findChord (cfg : Cfg) (s : Zchd) : Found :=
     | .isSubset => .subset
     | .neither => .neither
 
-/-- `ZchState::zch_press_key` -/
-def zchPressKey (cfg : Cfg) (s : Zchd) (osc : Nat) : Zchd × List OsEv :=
+/-- PINNED `ZchState::zch_press_key` (the code before the `fix:` commits for classes 1, 4, 5, 6, 7-8). -/
+def zchPressKeyPinned (cfg : Cfg) (s : Zchd) (osc : Nat) : Zchd × List OsEv :=
   if ssmIsEmpty (levelSsm cfg.dict []) then (s, [.down osc])
   else if osc = KEY_LEFTSHIFT then ({ s with lsft := true }, [.down osc])
   else if osc = KEY_RIGHTSHIFT then ({ s with rsft := true }, [.down osc])
   else if osc = KEY_RIGHTALT then ({ s with altgr := true }, [.down osc])
   else if isZippyIgnored osc then (s, [.down osc])
   else
-    let s1 := (punctStage cfg s osc).1
-    let ev0 := (punctStage cfg s osc).2
+    let s1 := (punctStagePinned cfg s osc).1
+    let ev0 := (punctStagePinned cfg s osc).2
     let s1 := { s1 with smartSpaceState := .inactive }
     if s1.enabledState ≠ .enabled then (s1, ev0 ++ [.down osc])
     else
       let s2 := enterKey cfg s1 osc
-      match findChord cfg s2 with
-      | .prio p a => ((activate cfg s2 osc a p true).1, ev0 ++ (activate cfg s2 osc a p true).2)
-      | .top a => ((activate cfg s2 osc a [] false).1, ev0 ++ (activate cfg s2 osc a [] false).2)
+      match findChordPinned cfg s2 with
+      | .prio p a => ((activatePinned cfg s2 osc a p true).1, ev0 ++ (activatePinned cfg s2 osc a p true).2)
+      | .top a => ((activatePinned cfg s2 osc a [] false).1, ev0 ++ (activatePinned cfg s2 osc a [] false).2)
       | .subset =>
         ({ s2 with lastPress := .notChord, charsToDelete := s2.charsToDelete + 1 }, ev0 ++ [.down osc])
       | .neither => (s2.softReset, ev0 ++ [.down osc])
@@ -509,6 +625,19 @@ def zRun (cfg : Cfg) : Zchd → List ZEv → Zchd × List OsEv
   | s, e :: es =>
     let (s1, o1) := zStep cfg s e
     let (s2, o2) := zRun cfg s1 es
+    (s2, o1 ++ o2)
+
+/-- the pinned step / run (counterexample theorems only) -/
+def zStepPinned (cfg : Cfg) (s : Zchd) : ZEv → Zchd × List OsEv
+  | .press k => zchPressKeyPinned cfg s k
+  | .release k => zchReleaseKey cfg s k
+  | .tick => (zchTick s false, [])
+
+def zRunPinned (cfg : Cfg) : Zchd → List ZEv → Zchd × List OsEv
+  | s, [] => (s, [])
+  | s, e :: es =>
+    let (s1, o1) := zStepPinned cfg s e
+    let (s2, o2) := zRunPinned cfg s1 es
     (s2, o1 ++ o2)
 
 /-! ## The path from `Kanata` to zippychord for a pass-through layout
